@@ -269,6 +269,17 @@ def _case(arg) -> Dict[str, Any]:
     per_rank = gen.gen_trace_set(seed, n_ranks=1, **kw)
     if len(arg) > 3:
         per_rank = {0: _repetitive_events(*arg[3])}
+    if seed % 6 == 4 and len(arg) <= 3:
+        # recorded with Python stack frames (with_stack=True): frames wrap some operators (identical span, written first, hence the parent), so instances of one
+        # operator sit at different depths; every entry of the file, frames included, is an event of the trace
+        k_ = 0
+        evs_ = per_rank[0]
+        for pos in range(len(evs_) - 1, 0, -1):
+            e = evs_[pos]
+            if e.get("cat") == "cpu_op" and e.get("dur", 0) >= 10 and e.get("name") != "aten::first_op":
+                k_ += 1
+                if k_ % 2:
+                    evs_.insert(pos, {"ph": "X", "cat": "python_function", "name": f"model.py({10 + k_}): forward", "pid": e["pid"], "tid": e["tid"], "ts": e["ts"], "dur": e["dur"]})
     RK = 0
     if seed % 5 == 3 and len(arg) <= 3:
         # two ranks, the SECOND one (a larger file than the first) is analysed; loaded through the default entry point (worker pool)
@@ -309,6 +320,13 @@ def _case(arg) -> Dict[str, Any]:
             # the analysed rank holds the events of ITS file (row id = position in that file)
             fnames = {i: e["name"] for i, e in gen.complete_events(per_rank[RK])}
             wrong = [i for i, rw in rows.items() if fnames.get(i) != rw["name"]]
+            n_steps = len({e["name"] for e in per_rank[RK] if str(e.get("name", "")).startswith("ProfilerStep")})
+            if not wrong and n_steps < 2 and set(fnames) != set(rows):
+                # fewer than two profiler steps: nothing is trimmed, every complete event of the file is a row
+                miss = sorted(set(fnames) - set(rows))
+                fails.append({"what": "every_complete_event_of_the_file_is_an_event_of_the_trace", "input": {"seed": seed, "rank": RK, "events": per_rank},
+                              "observed": {"missing_rows": miss[:6]}, "expected": [fnames[i] for i in miss[:6]]})
+                return {"n_checks": 1, "fails": fails, "nontrivial": True}
             if wrong:
                 fails.append({"what": "rank_frame_holds_the_events_of_its_own_file", "input": {"seed": seed, "rank": RK, "events": per_rank},
                               "observed": {"row": wrong[0], "name": rows[wrong[0]]["name"]}, "expected": fnames.get(wrong[0])})
